@@ -77,7 +77,10 @@ func (x *expander) strD(e ast.Expr, depth int) string {
 		if obj == nil {
 			obj = info.Defs[n]
 		}
-		if v, ok := obj.(*types.Var); ok && !v.IsField() && v.Pkg() != nil && v.Parent() != v.Pkg().Scope() && depth < 8 {
+		if v, ok := obj.(*types.Var); ok && !v.IsField() && v.Pkg() != nil && v.Parent() != v.Pkg().Scope() {
+			if depth >= 32 {
+				return "$" + n.Name
+			}
 			if rhs, idx, rng, ok := x.def(obj); ok {
 				if rng != nil {
 					return x.strD(rng, depth+1) + "[range]"
